@@ -180,7 +180,13 @@ pub fn generate(seed: u64, index: u64) -> Sc {
                     },
                     2 => fs_faults.rename_errno = Some(libc::EIO),
                     3 => fs_faults.mkdir_errno = Some(libc::EACCES),
-                    4 => fs_faults.fsync_errno = Some(libc::EIO),
+                    4 => {
+                        fs_faults.fsync_errno = Some(libc::EIO);
+                        if r.chance(1, 2) {
+                            // the write-back failed: only a prefix of the un-synced data is on the medium
+                            fs_faults.fsync_error_keeps = Some(r.range(0, 9000) as u64);
+                        }
+                    }
                     5 => fs_faults.open_read_errno = Some(libc::EACCES),
                     _ => fs_faults.read_errno = Some(libc::EIO),
                 }
